@@ -204,3 +204,12 @@ pub fn vec_take<T>(v: &mut Vec<T>) -> (r: Vec<T>)
 {
     core::mem::take(v)
 }
+
+/// `f64::EPSILON` (an associated constant Verus does not support) is named
+pub uninterp spec fn f64_epsilon_spec() -> f64;
+#[verifier::external_body]
+pub const fn f64_epsilon() -> (r: f64)
+    ensures r == f64_epsilon_spec(),
+{
+    f64::EPSILON
+}
